@@ -316,6 +316,7 @@ func ucsSplit(ans string) (heap, value string) {
 
 type ucsCfg struct {
 	serialised bool // the tree under test serialises the read-modify-write cycles (defect repaired)
+	lenient    bool // pair probes: a released cycle that cannot finish (it waits for a lock a parked cycle holds) ends the history quietly
 }
 
 // runUcsHistory executes one history on a fresh world, op by op against the model, monitor alongside.
@@ -323,12 +324,19 @@ func runUcsHistory(r *h.Report, d *h.Driver, cfg ucsCfg, ops []string) {
 	uw := newUcsWorld()
 	defer uw.close()
 	d.Ask("reset")
+	if cfg.serialised {
+		// the tree serialises the cycles: answers come from the member with the lock (Spine.UC.LSt)
+		if a := d.Ask("cfg locked 1"); a != "ok" {
+			panic("driver: " + a)
+		}
+	}
 	d.Mark()
 	spec := map[string]ucsVal{}
 	monitor := true
 	inflight := map[string]*h.G{}
 	overlapped := false     // some read-modify-write cycles overlapped since the last quiescent check
 	everOverlapped := false // … at any time in this history (the value-copy member is then not expected to be exact)
+	modelOff := false       // the model disagreed; the rest of the history is judged by the monitor only
 	var done []string
 	defer func() {
 		for _, g := range inflight {
@@ -495,6 +503,9 @@ func runUcsHistory(r *h.Report, d *h.Driver, cfg ucsCfg, ops []string) {
 			select {
 			case <-g.Parked:
 				g.State = "parked"
+				if cfg.serialised && len(inflight) > 0 {
+					r.Eval("copy:overlaps-on-serialised-tree", "")
+				}
 				inflight[f[1]] = g
 				line, impl, kind = "copy "+f[1], "ok", "copy"
 			case <-g.Done:
@@ -532,9 +543,17 @@ func runUcsHistory(r *h.Report, d *h.Driver, cfg ucsCfg, ops []string) {
 				}
 			}
 			g.Release <- struct{}{}
+			storeWait := 5 * time.Second
+			if cfg.lenient {
+				storeWait = 300 * time.Millisecond
+			}
 			select {
 			case <-g.Done:
-			case <-time.After(5 * time.Second):
+			case <-time.After(storeWait):
+				if cfg.lenient {
+					r.Eval("store:cannot-finish", "")
+					return
+				}
 				r.Mismatch(append(done, op), "released goroutine did not finish", "finished", "schedule driver")
 				return
 			}
@@ -549,6 +568,13 @@ func runUcsHistory(r *h.Report, d *h.Driver, cfg ucsCfg, ops []string) {
 		default:
 			panic("bad op " + op)
 		}
+		if modelOff {
+			// the model already disagreed earlier in this history: the rest runs under the monitor only, so that a
+			// failing input of the property is found if there is one
+			r.Eval(kind, "")
+			check(kind)
+			continue
+		}
 		ans := d.Ask(line)
 		heap, value := ucsSplit(ans)
 		r.Eval(kind, "")
@@ -558,15 +584,19 @@ func runUcsHistory(r *h.Report, d *h.Driver, cfg ucsCfg, ops []string) {
 		// the monitor judges the implementation first and on its own; only then is the model consulted
 		check(kind)
 		if impl != heap {
-			r.Mismatch(done, impl, heap, "use-case op "+op+" as "+line+" (aliasing-exact member)")
-			return
+			r.Mismatch(done, impl, heap, "use-case op "+op+" as "+line+" (member selected by the probe)")
+			modelOff = true
+			continue
 		}
 		if calmOnly && impl != value {
 			r.Mismatch(done, impl, value, "use-case op "+op+" as "+line+" (value-copy member, no overlap so far)")
-			return
+			modelOff = true
+			continue
 		}
 	}
-	r.Traces++
+	if !modelOff {
+		r.Traces++
+	}
 }
 
 // ---- generators
@@ -815,6 +845,31 @@ func TestUseCase(t *testing.T) {
 		runUcsHistory(r, d, cfg, c)
 	}
 
+	// ---- pair probes: for every pair of operation kinds on two different entities, park the first cycle at its
+	// copy, start the second; if the second reaches its copy too the cycles can overlap, and both store orders are
+	// run under the monitor (a deterministic, replayable witness if an update is lost). On a serialised tree the
+	// second cannot get there (one short wait per pair).
+	{
+		pre := []string{"add 1 1 1 0 1 1 0", "add 2 1 1 0 1 2 0", "add 1.1 1 1 0 1 3 0"}
+		xs := []string{"add 1 2 2 1 1 - 1", "avail 1 1 1 0", "rm 1 1 1", "rmall 1"}
+		ys := []string{"add 2 2 2 1 1 - 1", "avail 2 1 1 0", "rm 2 1 1", "rmall 2"}
+		lc := cfg
+		lc.lenient = true
+		for _, x := range xs {
+			for _, y := range ys {
+				before := r.Dist["copy:blocked"]
+				ops := append(append([]string{}, pre...), "copy 1 "+x, "copy 2 "+y, "store 1", "store 2", "read")
+				runUcsHistory(r, d, lc, ops)
+				if r.Dist["copy:blocked"] == before {
+					// the second cycle reached its copy while the first was open: try the other store order as well
+					ops = append(append([]string{}, pre...), "copy 1 "+x, "copy 2 "+y, "store 2", "store 1", "read")
+					runUcsHistory(r, d, lc, ops)
+				}
+				r.Eval("pair-probe", "")
+			}
+		}
+	}
+
 	// ---- seeded sequential histories
 	rng := h.Rng(20)
 	hist := h.Scale(500, 5000)
@@ -893,9 +948,12 @@ func TestUseCase(t *testing.T) {
 			reply, errS := uw.peerRead()
 			_, rm, _ := ucsRender(reply)
 			if errS != "" || ucsMapStr(rm) != ucsMapStr(spec) {
+				// one entry per op, so that a deterministic (replayable) witness of the same key is preferred as the shorter one
 				var all []string
-				for _, l := range per {
-					all = append(all, "goroutine: "+strings.Join(l, "; "))
+				for gi, l := range per {
+					for _, op := range l {
+						all = append(all, fmt.Sprintf("goroutine %d: %s", gi+1, op))
+					}
 				}
 				r.SpecFail(ucsLostKey, all, fmt.Sprintf("free-running goroutines on three entities: declared {%s} peer reads {%s} %s", ucsMapStr(spec), ucsMapStr(rm), errS))
 			}
@@ -907,7 +965,7 @@ func TestUseCase(t *testing.T) {
 
 	// ---- minimise witnesses of unlisted spec failures and of the first mismatch
 	for _, sf := range append([]h.SpecFailure{}, r.SpecFailures...) {
-		if sf.Key == ucsLostKey || len(sf.Ops) < 3 || strings.HasPrefix(sf.Ops[0], "goroutine:") {
+		if sf.Key == ucsLostKey || len(sf.Ops) < 3 || strings.HasPrefix(sf.Ops[0], "goroutine") {
 			continue
 		}
 		key := sf.Key
